@@ -111,4 +111,6 @@ ProtectedMediumKept == [][Swp = 1 => disk' = disk]_vars
 \* a rejected MODE SELECT changes nothing; the saved pages only change through a MODE SELECT with SP = 1
 RejectedChangesNothing == [][(hist' # hist /\ hist'[Len(hist')].out = "CheckCondition") => UNCHANGED <<cur, saved, disk>>]_vars
 SavedOnlyBySp == [][saved' # saved => hist'[Len(hist')].act = "select" /\ hist'[Len(hist')].args[2] = 1]_vars
+\* the state without its history (see Reservations!CoreView)
+CoreView == <<cur, saved, held, disk>>
 =============================================================================
